@@ -304,6 +304,7 @@ def run(prog, ctx):
         o10(prog, ctx)
         o11_list_members(prog, ctx)
         o12_root_prefix(prog, ctx)
+        o13_join_pairs_by_equality(prog, ctx)
         ok, cut = rcfg.all_paths_cut(rcfg.block_of(jc[0]), lambda lit, b, i: lit is not None and lit.atom.endswith("->join_same_entries") and lit.pol)
         if ok and cut:
             ctx.ok("O6", "join_same_entries() runs only under the option", jc[0].where, "behind `ef->join_same_entries`")
@@ -546,6 +547,28 @@ def o12_root_prefix(prog, ctx):
     from rules import C01 as _C01
     _common.import_obligations(ctx, prog, [_C01.l1], "O12", "ROOT_PREFIX prefixes the default layers: ", keep=lambda ob: "layer" in ob.instance,
                                what="composition of the default layers")
+
+
+def o13_join_pairs_by_equality(prog, ctx):
+    """O13: JOIN_SAME_ENTRIES joins the definitions of ONE key: two entries are joined when their section and their key are EQUAL
+    (strcmp), as everywhere else in the library - `include` and `Include` are two keys."""
+    jf = prog.fn("join_same_entries")
+    ctx.touch(jf)
+    n = 0
+    for c in jf.calls(("strcmp", "strncmp", "strcasecmp", "strncasecmp", "memcmp", "strcoll")):
+        a = [render(x) for x in c.call_args()]
+        fld = "key" if all(".key" in t or "->key" in t for t in a[:2]) else ("group" if all(".group" in t or "->group" in t for t in a[:2]) else None)
+        if fld is None:
+            continue
+        n += 1
+        if c.j["callee"] == "strcmp":
+            ctx.ok("O13", "the join pairs entries by equal %s" % fld, c.where, render(c)[:70])
+        else:
+            ctx.fail("O13", "the join pairs entries by equal %s" % fld, c.where,
+                     "`%s`: not equality of the whole name - the definitions of two different keys (names that differ in case / share a prefix) are "
+                     "concatenated into one value list, and an empty definition of one resets the other" % render(c)[:70], key="join-compare:%s" % fld)
+    if n < 2:
+        ctx.inconclusive("O13", "the join pairs entries by equal section and key", jf.where, "%d comparisons of entry names found" % n)
 
 
 def o9(prog, ctx):
